@@ -42,6 +42,9 @@ func c17Alphabet() []cop {
 		add("out{P1,P1}", kit.Reg{Life: sg, ResObj: true, Outs: []kit.Out{{T: "P1"}, {T: "P1"}}}),
 		add("inst-P1", kit.Reg{Life: sg, Kind: "instance", Outs: []kit.Out{{T: "P1"}}}),
 		add("bad-name+group", kit.Reg{Life: sg, Outs: []kit.Out{{T: "P2"}}, Name: "k", Group: "g"}),
+		// scoped initializer functions (no result): registered under (struct{}, name) and run for every new scope
+		add("init@i1", kit.Reg{Life: "scoped", Kind: "void", Name: "i1"}),
+		add("init@i2-singleton", kit.Reg{Life: sg, Kind: "void", Name: "i2"}),
 		add("bad-backquote", kit.Reg{Life: sg, Outs: []kit.Out{{T: "P2"}}, Name: "a`b"}),
 		// rejected for a reason found only at a LATER output: a reserved type as second return of a grouped registration
 		add("bad-(P2,scope)[g]", kit.Reg{Life: sg, Outs: []kit.Out{{T: "P2"}, {T: "scope"}}, Group: "g"}),
@@ -51,6 +54,7 @@ func c17Alphabet() []cop {
 		{Kind: "remove", T: "IA", Name: "Remove(IA)"},
 		{Kind: "removekeyed", T: "P0", Key: "k", Name: "RemoveKeyed(P0,k)"},
 		{Kind: "removekeyed", T: "P1", Key: "k", Name: "RemoveKeyed(P1,k)"},
+		{Kind: "removekeyed", T: "void", Key: "i1", Name: "RemoveKeyed(struct{},i1)"},
 		{Kind: "module", Name: "module[P1,P0]", Mod: []cop{add("P1", kit.Reg{Life: sg, Outs: []kit.Out{{T: "P1"}}}), add("P0", kit.Reg{Life: sg, Outs: []kit.Out{{T: "P0"}}})}},
 	}
 }
@@ -215,7 +219,7 @@ func (st *c17State) queries() []Finding {
 				continue
 			}
 			tn := ""
-			for _, t := range c17Types {
+			for _, t := range append([]string{"void"}, c17Types...) {
 				if kit.TypeOf(t) == d.Type {
 					tn = t
 				}
@@ -339,6 +343,9 @@ func c17RunHistory(h []cop, post *cop, withBuild bool) []Finding {
 // interleaved with removals (group members, whose internal keys are positions, around removals).
 var c17Churn = c17Idx("P0", "P0[g]", "P0@k", "P1", "Remove(P0)", "Remove(P1)", "RemoveKeyed(P0,k)")
 
+// c17Inits: initializer functions around removals.
+var c17Inits = c17Idx("init@i1", "init@i2-singleton", "P0", "RemoveKeyed(struct{},i1)", "Remove(P0)")
+
 // c17Idx maps operation names to their positions in the alphabet.
 func c17Idx(names ...string) []int {
 	var out []int
@@ -440,6 +447,10 @@ func init() {
 			for i := range c17Alphabet() {
 				i := i
 				jobs = append(jobs, mc.Job{Name: fmt.Sprintf("c17/first-%d", i), Run: func(r *mc.Report) { c17Search(r, depth, i) }})
+			}
+			for i := range c17Inits {
+				i := i
+				jobs = append(jobs, mc.Job{Name: fmt.Sprintf("c17/inits-first-%d", i), Weight: 2, Run: func(r *mc.Report) { c17Search(r, depth+1, i, c17Inits...) }})
 			}
 			for i := range c17Churn {
 				i := i
